@@ -952,6 +952,105 @@ func msgPackedElemType(fd protoreflect.FieldDescriptor) (protowire.Type, bool) {
 // md): non-minimal tags/lengths/varints, packed<->unpacked, sub-messages split in two occurrences,
 // and (only between different field numbers, keeping the relative order of equal numbers) reordered.
 func msgRewrite(c *Ctx, md protoreflect.MessageDescriptor, b []byte, depth int) []byte {
+	return msgRewriteOpts(c, md, b, depth, false)
+}
+
+// msgAppendScalarField appends one occurrence (tag + value) of scalar field fd holding v.
+func msgAppendScalarField(b []byte, num protowire.Number, fd protoreflect.FieldDescriptor, v protoreflect.Value) []byte {
+	switch fd.Kind() {
+	case protoreflect.BoolKind:
+		b = protowire.AppendTag(b, num, protowire.VarintType)
+		return protowire.AppendVarint(b, protowire.EncodeBool(v.Bool()))
+	case protoreflect.EnumKind:
+		b = protowire.AppendTag(b, num, protowire.VarintType)
+		return protowire.AppendVarint(b, uint64(v.Enum()))
+	case protoreflect.Int32Kind, protoreflect.Int64Kind:
+		b = protowire.AppendTag(b, num, protowire.VarintType)
+		return protowire.AppendVarint(b, uint64(v.Int()))
+	case protoreflect.Sint32Kind, protoreflect.Sint64Kind:
+		b = protowire.AppendTag(b, num, protowire.VarintType)
+		return protowire.AppendVarint(b, protowire.EncodeZigZag(v.Int()))
+	case protoreflect.Uint32Kind, protoreflect.Uint64Kind:
+		b = protowire.AppendTag(b, num, protowire.VarintType)
+		return protowire.AppendVarint(b, v.Uint())
+	case protoreflect.Sfixed32Kind:
+		b = protowire.AppendTag(b, num, protowire.Fixed32Type)
+		return protowire.AppendFixed32(b, uint32(v.Int()))
+	case protoreflect.Fixed32Kind:
+		b = protowire.AppendTag(b, num, protowire.Fixed32Type)
+		return protowire.AppendFixed32(b, uint32(v.Uint()))
+	case protoreflect.FloatKind:
+		b = protowire.AppendTag(b, num, protowire.Fixed32Type)
+		return protowire.AppendFixed32(b, math.Float32bits(float32(v.Float())))
+	case protoreflect.Sfixed64Kind:
+		b = protowire.AppendTag(b, num, protowire.Fixed64Type)
+		return protowire.AppendFixed64(b, uint64(v.Int()))
+	case protoreflect.Fixed64Kind:
+		b = protowire.AppendTag(b, num, protowire.Fixed64Type)
+		return protowire.AppendFixed64(b, v.Uint())
+	case protoreflect.DoubleKind:
+		b = protowire.AppendTag(b, num, protowire.Fixed64Type)
+		return protowire.AppendFixed64(b, math.Float64bits(v.Float()))
+	case protoreflect.StringKind:
+		b = protowire.AppendTag(b, num, protowire.BytesType)
+		return protowire.AppendString(b, v.String())
+	case protoreflect.BytesKind:
+		b = protowire.AppendTag(b, num, protowire.BytesType)
+		return protowire.AppendBytes(b, v.Bytes())
+	}
+	return b
+}
+
+// msgExtraOccurrence returns a further occurrence of the known field of piece (num, bytes): a
+// fresh scalar value (last one wins / appended), or, for a map entry, the same key with another
+// value (upsert).  nil when the field is not of such a shape.
+func msgExtraOccurrence(c *Ctx, md protoreflect.MessageDescriptor, num protowire.Number, piece []byte) []byte {
+	if md == nil {
+		return nil
+	}
+	fd := msgFindField(md, num)
+	if fd == nil {
+		return nil
+	}
+	switch {
+	case fd.IsMap():
+		_, typ, n := protowire.ConsumeTag(piece)
+		if n < 0 || typ != protowire.BytesType {
+			return nil
+		}
+		payload, m := protowire.ConsumeBytes(piece[n:])
+		if m < 0 {
+			return nil
+		}
+		chunks, ok := msgSplitFields(payload)
+		if !ok {
+			return nil
+		}
+		var entry []byte
+		for _, ch := range chunks {
+			if ch.num == 1 {
+				entry = protowire.AppendTag(entry, 1, ch.typ)
+				entry = append(entry, ch.val...)
+			}
+		}
+		if vf := fd.MapValue(); vf.Message() == nil {
+			entry = msgAppendScalarField(entry, 2, vf, msgScalar(c, vf, false))
+		} else if c.Bool() {
+			entry = append(protowire.AppendTag(entry, 2, protowire.BytesType), 0)
+		}
+		out := protowire.AppendTag(nil, num, protowire.BytesType)
+		return protowire.AppendBytes(out, entry)
+	case fd.Message() != nil:
+		return nil
+	default:
+		return msgAppendScalarField(nil, num, fd, msgScalar(c, fd, false))
+	}
+}
+
+// msgRewriteOpts: with perturb, values are also changed (the result decodes to a different
+// message, which is fine for model-compared decoding): arbitrary varints for varint fields,
+// extra occurrences of scalar fields and of map keys.
+func msgRewriteOpts(c *Ctx, md protoreflect.MessageDescriptor, b []byte, depth int, perturb bool) []byte {
 	chunks, ok := msgSplitFields(b)
 	if !ok {
 		return b
@@ -977,6 +1076,9 @@ func msgRewrite(c *Ctx, md protoreflect.MessageDescriptor, b []byte, depth int) 
 			out = append(protowire.AppendTag(nil, ch.num, ch.typ), ch.val...)
 		case ch.typ == protowire.VarintType:
 			v, _ := protowire.ConsumeVarint(ch.val)
+			if perturb && c.Intn(3) == 0 {
+				v = msgU64(c) // any uint64: the decoder truncates / zig-zags / tests for non-zero
+			}
 			if et, okp := msgPackedElemType(fd); okp && et == protowire.VarintType && c.Intn(3) == 0 {
 				body := msgAppendVarintPadded(c, nil, v, true)
 				out = append(tag(protowire.BytesType), msgAppendVarintPadded(c, nil, uint64(len(body)), true)...)
@@ -998,7 +1100,7 @@ func msgRewrite(c *Ctx, md protoreflect.MessageDescriptor, b []byte, depth int) 
 			case fd.IsMap():
 				// rewrite the entry: optionally reorder key/value, rewrite a message value
 				var sub protoreflect.MessageDescriptor = fd.Message()
-				p2 := msgRewrite(c, sub, payload, depth-1)
+				p2 := msgRewriteOpts(c, sub, payload, depth-1, perturb)
 				out = append(tag(ch.typ), msgAppendVarintPadded(c, nil, uint64(len(p2)), true)...)
 				out = append(out, p2...)
 			case packable:
@@ -1026,7 +1128,7 @@ func msgRewrite(c *Ctx, md protoreflect.MessageDescriptor, b []byte, depth int) 
 					out = append(out, payload...)
 				}
 			case fd.Message() != nil && depth > 0:
-				sub := msgRewrite(c, fd.Message(), payload, depth-1)
+				sub := msgRewriteOpts(c, fd.Message(), payload, depth-1, perturb)
 				if parts, ok2 := msgSplitFields(sub); ok2 && len(parts) >= 2 && !fd.IsList() && c.Intn(3) == 0 {
 					// split a singular sub-message into two occurrences (merged by the decoder)
 					cut := 1 + c.Intn(len(parts)-1)
@@ -1060,7 +1162,7 @@ func msgRewrite(c *Ctx, md protoreflect.MessageDescriptor, b []byte, depth int) 
 				break
 			}
 			if depth > 0 {
-				content = msgRewrite(c, fd.Message(), content, depth-1)
+				content = msgRewriteOpts(c, fd.Message(), content, depth-1, perturb)
 			}
 			out = append(tag(ch.typ), content...)
 			out = msgAppendVarintPadded(c, out, protowire.EncodeTag(ch.num, protowire.EndGroupType), true)
@@ -1068,6 +1170,14 @@ func msgRewrite(c *Ctx, md protoreflect.MessageDescriptor, b []byte, depth int) 
 			out = append(tag(ch.typ), ch.val...)
 		}
 		pieces = append(pieces, piece{ch.num, out})
+	}
+	if perturb && len(pieces) > 0 {
+		for k := c.Intn(3); k > 0; k-- {
+			src := pieces[c.Intn(len(pieces))]
+			if extra := msgExtraOccurrence(c, md, src.num, src.b); extra != nil {
+				pieces = append(pieces, piece{src.num, extra})
+			}
+		}
 	}
 	// reorder: adjacent swaps between different field numbers that are not members of the same
 	// oneof and not (known, unknown) pairs of ... any pair with different numbers commutes, except
